@@ -1081,6 +1081,7 @@ class SyncObj(object):
     def __onReadonlyNodeConnected(self, node):
         self.__readonlyNodes.add(node)
         self.__connectedNodes.add(node)
+        self.__serializer.cancelTransmisstion(node)
         self.__raftNextIndex[node] = self.__getCurrentLogIndex() + 1
         self.__raftMatchIndex[node] = 0
 
@@ -1093,12 +1094,15 @@ class SyncObj(object):
 
     def __onNodeConnected(self, node):
         self.__connectedNodes.add(node)
+        # A snapshot transfer that was under way on the previous connection must start over
+        self.__serializer.cancelTransmisstion(node)
         # The node may have restarted without its log, forget what it acknowledged before
         if node in self.__raftMatchIndex:
             self.__raftMatchIndex[node] = 0
 
     def __onNodeDisconnected(self, node):
         self.__connectedNodes.discard(node)
+        self.__serializer.cancelTransmisstion(node)
 
     def __getCurrentLogIndex(self):
         return self.__raftLog[-1][1]
